@@ -47,6 +47,7 @@ def run(ctx):
                 continue   # C07's observable
             bad.append(c)
             ctx.disagree("load", c.replay(), c.out, c.model[:6])
+    _imported_types(ctx)
     for c in bad[:3]:
         small = cfgstream.shrink_lines(ctx, c, lambda cs: [obs(x.out) != obs(x.model) and not obs(x.out).startswith("internal") for x in cs])
         c.lines = small
@@ -63,3 +64,39 @@ def run(ctx):
     return core.finish(ctx, obligations, discharged, names, RULE,
                        "lake build ZCV.Props.C01 && lake env lean ZCV/Audit/C01.lean",
                        ["datatypes are pure functions failing with ValueError", "schema object = expected elaboration (digest checked per schema)"])
+
+
+def _imported_types(ctx):
+    """texts whose section types come from a component named by %import: a conforming text is accepted — on the first load
+    and on every later load against the same schema object — and a non-conforming one rejected, by fresh loaders"""
+    import io
+    import ZConfig
+    from .. import pkggen, schemafam as F
+    pk = pkggen.PkgRoot()
+    try:
+        comp = pk.add_component([F.TypeD("impa", [F.KeyD("k", "integer")], implements="slotab"), F.TypeD("impb", [])])
+        schema = ZConfig.loadSchemaFile(io.StringIO(
+            "<schema><abstracttype name='slotab'/><multisection type='slotab' name='*' attribute='items'/><key name='plain'/></schema>"))
+        texts = [("%%import %s\n<impa>\nk 3\n</impa>\n<impa x/>\n" % comp, "accept"),
+                 ("%%import %s\nplain v\n<impa/>\n" % comp, "accept"),
+                 ("%%import %s\n<impb/>\n" % comp, "reject"),          # known type, but it does not implement the slot's type
+                 ("<impa/>\n%%import %s\n" % comp, "reject"),          # used before the %import line
+                 ("%%import %s\n<impa>\nk notint\n</impa>\n" % comp, "reject"),
+                 ("%%import %s\n<impa/>\n<impa/>\n" % comp, "accept")]
+        for rnd in range(3):
+            for t, want in texts:
+                try:
+                    ZConfig.loadConfigFile(schema, io.StringIO(t), cfgstream.URL)
+                    got = "accept"
+                except ZConfig.ConfigurationError:
+                    got = "reject"
+                except Exception as e:
+                    got = "exc:" + type(e).__name__
+                ctx.evaluations += 1
+                ctx.nontriv(("imported-types", rnd, t))
+                if got != want:
+                    ctx.violate("load round %d: the loader %ss %r, which %s" % (rnd + 1, got, t, "conforms" if want == "accept" else "does not conform"),
+                                {"schema": "abstract slot 'slotab', component %s defines impa (implements slotab) and impb" % comp,
+                                 "text": t, "round": rnd + 1, "impl": got, "expected": want}, signature="C01:imported-types:%s-expected-%s" % (got, want))
+    finally:
+        pk.close()
